@@ -26,6 +26,7 @@ import Frp.Engines.HttpE2e
 import Frp.Engines.Xtcp
 import Frp.Engines.Vmgr
 import Frp.Engines.Svc
+import Frp.Engines.Teardown
 /-! Registry of driver engines (one line per engine). -/
 namespace Frp.Engines
 open Frp.Proto
@@ -59,5 +60,6 @@ def all : List (String × Engine) :=
   , ("xtcp", xtcp)
   , ("vmgr", vmgr)
   , ("svc", svc)
+  , ("td", td)
   ]
 end Frp.Engines
